@@ -1581,6 +1581,28 @@ class Evaluator:
             if cv is not None:
                 return cv
             return Term('attr', (base, Const(attr)))
+        if isinstance(base, Term) and base.head in ('enum', 'flag') and isinstance(base.args[0], Const):
+            ci_ = self.prog.classes.get(base.args[0].v) if hasattr(self.prog, 'classes') else None
+            if ci_ is None:
+                try:
+                    ci_ = self.prog.cls(base.args[0].v)
+                except Exception:
+                    ci_ = None
+            if base.head == 'enum' and attr == 'name':
+                return base.args[1]
+            if attr == 'value':
+                return base.args[-1] if not isinstance(base.args[-1].v, int) or isinstance(base.args[-1].v, bool) else Num(C(base.args[-1].v))
+            if ci_ is not None:
+                m = self.prog.find_method(ci_, attr)
+                if m is not None:
+                    if m.is_property:
+                        return self._invoke(m, st, [], {}, None, base, node)
+                    if m.is_classmethod:
+                        return Fn('repo', m, self_val=Fn('class', ci_))
+                    return Fn('repo', m, self_val=base)
+                cv = self.class_constants(ci_).get(attr)
+                if cv is not None:
+                    return cv
         if isinstance(base, Fn) and base.fkind == 'builtin' and base.ref == 'str' and attr == 'maketrans':
             return Fn('builtin', 'str.maketrans')
         if isinstance(base, Term) and base.head == 'super':
@@ -2295,6 +2317,11 @@ class Evaluator:
     def call(self, fn: Val, pos, kw, star_kw, st, node) -> Val:
         if isinstance(fn, Gam):
             return gamma(fn.pred, self.call(fn.a, pos, kw, star_kw, st, node), self.call(fn.b, pos, kw, star_kw, st, node))
+        if isinstance(fn, Obj):
+            # an instance of a repository class that defines __call__
+            m = self.prog.find_method(fn.cls, '__call__')
+            if m is not None and self.depth < self.max_depth:
+                return self._invoke(m, st, pos, kw, star_kw, fn, node)
         if isinstance(fn, Fn):
             if fn.fkind == 'repo':
                 fi: FuncInfo = fn.ref
@@ -2407,6 +2434,12 @@ class Evaluator:
         self.emit('lib', st, node, name=dotted, pos=list(pos), kw=dict(kw), star_kw=star_kw, result=result)
 
     def call_lib(self, dotted: str, pos, kw, star_kw, st, node) -> Val:
+        # a boolean array stays the comparison it is, however it reached the call (as a term, or wrapped as an opaque array)
+        def unwrap(v):
+            t_ = arr_identity(v) if isinstance(v, Num) and v.length is not None else v
+            return t_ if isinstance(t_, Term) and t_.head == 'mask' else v
+        pos = [unwrap(v) for v in pos]
+        kw = {k_: unwrap(v) for k_, v in kw.items()}
         h = LIB_HANDLERS.get(dotted)
         res = None
         if h is not None:
@@ -2667,6 +2700,21 @@ def h_dot(ev, pos, kw, st, node):
     return Num(sym.mk_sum(a.r * b.r, a.length))
 
 
+def h_repeat_scalar(ev, pos, kw, st, node):
+    """np.repeat(c, n) of one number: n copies of it (arrays keep the library term)"""
+    a, reps = _arg(pos, kw, 0, 'a'), _arg(pos, kw, 1, 'repeats')
+    if a is None or reps is None or (set(kw) - {'a', 'repeats'}) or len(pos) > 2:
+        return None
+    an = a if isinstance(a, Num) else None
+    rn = ev.as_num(reps)
+    if an is None or an.length is not None or rn is None or rn.length is not None:
+        return None
+    out = Num(an.r, rn.r, 'ndarray')
+    from .dtypes import value_tag
+    out.dt = value_tag(an)
+    return out
+
+
 def h_column_stack(ev, pos, kw, st, node):
     """column_stack((A, B, ...)) of 1-D arrays of one extent: row j is (A[j], B[j], ...) - as a sequence of rows it is zip(A, B, ...)"""
     seq = _arg(pos, kw, 0, 'tup')
@@ -2865,6 +2913,8 @@ def _const_key(v):
 
 def _as_fill(t):
     """a freshly allocated 1-D buffer as `fill(content, n)` (empty: content not yet defined)"""
+    if isinstance(t, Num) and t.length is not None and not sym.free_idx(t.r) and not sym.atoms_with_head(t.r, 'el'):
+        return Term('fill', (Num(t.r), Num(t.length)), kind='ndarray')
     if isinstance(t, Term) and t.head in ('lib:numpy.empty', 'lib:numpy.zeros', 'lib:numpy.ones') and not t.head.endswith('_like'):
         shp = t.kw('shape') if t.kw('shape') is not None else (t.args[0] if t.args else None)
         if isinstance(shp, Num) and shp.length is None:
@@ -2938,6 +2988,12 @@ def h_full(ev, pos, kw, st, node):
     n_ = ev.as_num(shape) if shape is not None else None
     if n_ is None or n_.length is not None or fv is None or (set(kw) - {'shape', 'fill_value', 'dtype'}):
         return None
+    fvn = fv if isinstance(fv, Num) else ev.as_num(fv)
+    if fvn is not None and fvn.length is None and not sym.free_idx(fvn.r):
+        out = Num(fvn.r, n_.r, 'ndarray')       # n copies of one number: the same array as [c] * n or np.repeat(c, n)
+        from .dtypes import tag_of_dtype_arg, value_tag
+        out.dt = tag_of_dtype_arg(kw.get('dtype')) if kw.get('dtype') is not None else value_tag(fvn)
+        return out
     return Term('fill', (fv, n_), kind='ndarray', node=node)
 
 
@@ -3205,7 +3261,7 @@ LIB_HANDLERS = {
     'numpy.add': h_binary('add'), 'numpy.subtract': h_binary('subtract'), 'numpy.multiply': h_binary('multiply'),
     'numpy.divide': h_binary('divide'), 'numpy.true_divide': h_binary('true_divide'), 'numpy.square': h_square, 'numpy.negative': h_negative,
     'numpy.shape': h_shape, 'numpy.size': h_size, 'numpy.where': lambda ev, pos, kw, st, node: (h_where_ew(ev, pos, kw, st, node) if len(pos) == 3 else h_nonzero_tuple(ev, pos, kw, st, node)), 'numpy.nonzero': h_nonzero_tuple, 'numpy.flatnonzero': h_flatnonzero,
-    'numpy.sum': h_sum, 'numpy.column_stack': h_column_stack, 'numpy.dot': h_dot, 'numpy.inner': h_dot, 'numpy.vdot': h_dot, 'numpy.diff': h_diff, 'numpy.abs': h_abs, 'numpy.absolute': h_abs, 'numpy.fabs': h_abs,
+    'numpy.sum': h_sum, 'numpy.repeat': h_repeat_scalar, 'numpy.column_stack': h_column_stack, 'numpy.dot': h_dot, 'numpy.inner': h_dot, 'numpy.vdot': h_dot, 'numpy.diff': h_diff, 'numpy.abs': h_abs, 'numpy.absolute': h_abs, 'numpy.fabs': h_abs,
     'numpy.mean': _reduce('Mean'), 'numpy.std': h_std, 'numpy.var': h_var, 'numpy.min': _reduce('Min'),
     'numpy.max': _reduce('Max'), 'numpy.amin': _reduce('Min'), 'numpy.amax': _reduce('Max'),
     'numpy.sqrt': h_sqrt, 'numpy.power': h_power, 'numpy.isscalar': h_isscalar, 'math.sqrt': h_sqrt, 'math.fabs': h_abs,
